@@ -61,6 +61,17 @@ class Prop(common.PropertyCheck):
             yield {'g': 'ellipse', 'cont': rng.choice(['array', 'sample']), 'N': rng.choice([20, 60]), 'a': float(rng.choice([150, 300, 420])), 'b': float(rng.choice([100, 250])),
                    'theta': rng.choice([0.0, 0.6, -1.1]), 'center': [rng.choice([300, 500, 700]), rng.choice([200, 400, 600])], 'log': False,
                    'chform': rng.choice(['names', 'pos']), 'dtype': 'uint', 'int_center': True, 'seed': rng.randrange(1 << 30)}
+        # plain arrays of narrow integer types holding the extremes of their type, thresholds left to their default ("no limit")
+        for i in range(self.budget(24, 200)):
+            yield {'g': 'high_low', 'cont': 'array', 'dtype': 'narrow', 'narrow': ['uint8', 'uint16', 'int8', 'int16', 'uint32', 'int32'][i % 6], 'N': 12,
+                   'chform': ['none', 'pos', 'list', 'list1'][i % 4], 'high': ['default', 'default', 'scalar'][i % 3], 'low': ['default', 'scalar', 'default'][(i // 2) % 3],
+                   'big': False, 'seed': rng.randrange(1 << 30)}
+        # degenerate semi-axes: zero, infinite, tiny, huge (the documented quotient form decides, evaluated in floating point)
+        for i, (a, b) in enumerate([(0.0, 1.0), (1.0, 0.0), (0.0, 0.0), (float('inf'), 2.0), (3.0, float('inf')), (1e-170, 1e-170), (1e170, 1e170), (1e-200, 5.0),
+                                    (1e200, 1e-3)]):
+            for cont in ('array', 'sample'):
+                yield {'g': 'ellipse', 'cont': cont, 'N': 40, 'a': a, 'b': b, 'theta': 0.0, 'center': [500.0, 400.0], 'log': False, 'chform': 'pos',
+                       'dtype': 'float', 'degenerate': True, 'seed': 500 + i}
         for bad in ('ellipse1', 'ellipse3', 'startend_too_many'):
             yield {'g': 'bad', 'what': bad}
 
@@ -70,7 +81,12 @@ class Prop(common.PropertyCheck):
         N = case['N']
         if case['cont'] == 'array':
             D = 3
-            if case.get('dtype') == 'uint':
+            if case.get('dtype') == 'narrow':
+                ii = np.iinfo(case['narrow'])
+                a = r.randint(max(ii.min, -(1 << 31)), min(ii.max, (1 << 31) - 1), size=(N, D)).astype(case['narrow'])
+                if N >= 4:
+                    a[0, :] = ii.min; a[1, :] = ii.max; a[2, 0] = ii.min; a[3, D - 1] = ii.max
+            elif case.get('dtype') == 'uint':
                 a = r.randint(0, 1024, size=(N, D)).astype(np.uint16)
             elif case.get('dtype', 'int') == 'int':
                 a = r.randint(0, 1024, size=(N, D)).astype(np.int64)
@@ -82,6 +98,10 @@ class Prop(common.PropertyCheck):
                 a[mk] = np.round(a[mk])
                 if case.get('dtype') == 'float_nan' and N:
                     a[r.rand(N, D) < 0.1] = np.nan
+                if case.get('degenerate') and N:
+                    a[:, 0] = r.uniform(490, 510, size=N); a[:, 1] = r.uniform(390, 410, size=N)
+                    a[::5, 0] = case['center'][0]              # on the vertical line through the centre
+                    a[::7, 1] = case['center'][1]              # on the horizontal line through the centre
                 if case.get('thin') and N:
                     # events on the major axis of the ellipse of this case (well inside it), a few off the axis
                     t = np.linspace(-0.97, 0.97, N) * case['a']
@@ -250,6 +270,12 @@ class Prop(common.PropertyCheck):
                     if not ((l is None and not math.isnan(v)) or (l is not None and v > l)):
                         ok = False
                 want.append(ok)
+        elif case.get('degenerate'):
+            p = impl['params']
+            pts = np.array([[struct.unpack('<d', struct.pack('<Q', v))[0] for v in xy] for xy in p['pts']], dtype=float).reshape(-1, 2)
+            with np.errstate(all='ignore'):
+                f = ((pts[:, 0] - p['center'][0]) / p['a']) ** 2 + ((pts[:, 1] - p['center'][1]) / p['b']) ** 2
+                want = [bool(v <= 1) for v in f]
         else:
             p = impl['params']
             c, s = Fraction(math.cos(p['theta'])), Fraction(math.sin(p['theta']))
@@ -301,7 +327,7 @@ class Prop(common.PropertyCheck):
             return None
         if g == 'start_end':
             return {'op': 'start_end', 'n': case['N'], 's': case['s'], 'e': case['e']}
-        if 'err' in impl:
+        if 'err' in impl or case.get('degenerate'):
             return None
         p = impl['params']
         if g == 'high_low':
